@@ -6,7 +6,8 @@
    last observed, and checks
      - every accepted offer / claim returned exactly (running position + bytes the message occupies), a multiple of 32,
        strictly above everything returned before;
-     - AdminAction moves the running position to the next term boundary, the other documented refusals move nothing;
+     - AdminAction moves the running position to the next term boundary, the other documented refusals move nothing
+       (MaxPositionExceeded in the very last term: the running position follows position(), see after_max);
        anything else (panic, undocumented error) is a violation;
      - only polls deliver; what a poll delivers is the head of the queue, message by message: right session, right length,
        right bytes (hash of LogBase.payload k len) - so delivered is a prefix of accepted, in order, nothing twice, nothing else;
@@ -60,11 +61,21 @@ Fixpoint take_delivered (ses : Z) (q : list (Z * Z * Z)) (ms : list mobs) : opti
 
 Definition is_ok0 (r : outcome Z) : bool := match r with Ok 0 => true | _ => false end.
 
-Definition judge_append (g : c01geom) (st : ost) (r : outcome Z) (req : Z) (accept : Z -> ost) : option ost :=
+(* MaxPositionExceeded is also the answer when a message does not fit into what is left of the very last term: the appender
+   has then closed the term with padding and the publication reports the end of the position space; the running
+   position follows what position() reports (everywhere else position() equals the running position and nothing moves) *)
+Definition after_max (st : ost) (ppos : outcome Z) : ost :=
+  match ppos with
+  | Ok q => if none_b (o_pend st) && (o_pos st <? q) then mkOst q (o_pend st) (o_queue st) (o_sub st) (o_closed st) else st
+  | _ => st
+  end.
+
+Definition judge_append (g : c01geom) (st : ost) (r : outcome Z) (ppos : outcome Z) (req : Z) (accept : Z -> ost) : option ost :=
   match r with
   | Ok p =>
       if none_b (o_pend st) && (p =? o_pos st + req) && (p mod 32 =? 0) && (o_pos st <? p) then Some (accept p) else None
   | Err AdminAction => Some (mkOst (next_term g (o_pos st)) (o_pend st) (o_queue st) (o_sub st) (o_closed st))
+  | Err MaxPositionExceeded => Some (after_max st ppos)
   | Err e => if refusal e then Some st else None
   | _ => None
   end.
@@ -92,9 +103,9 @@ Definition judge (g : c01geom) (st : ost) (o : sop) (ob : obs) : option ost :=
       if nil_b fs && nil_b ms && (spos =? o_sub st) then
         match o with
         | SOffer k len =>
-            judge_append g st r (c_req g len) (fun p => mkOst p (o_pend st) (o_queue st ++ [(k, len, p)]) (o_sub st) (o_closed st))
+            judge_append g st r ppos (c_req g len) (fun p => mkOst p (o_pend st) (o_queue st ++ [(k, len, p)]) (o_sub st) (o_closed st))
         | SClaim len =>
-            judge_append g st r (align (32 + len) 32) (fun p => mkOst (o_pos st) (Some (len, p)) (o_queue st) (o_sub st) (o_closed st))
+            judge_append g st r ppos (align (32 + len) 32) (fun p => mkOst (o_pos st) (Some (len, p)) (o_queue st) (o_sub st) (o_closed st))
         | SCommit k =>
             if is_ok0 r then
               match o_pend st with
